@@ -101,12 +101,14 @@ def plan(prop, tier, seed, avoid):
 
 
 def replay_plan(prop, rp):
-    job = rp["job"]
-    args = list(job["args"])
-    if "case" in rp:
-        args += ["-only", str(rp["case"])]
-    j = dict(cmd=job["cmd"], variant=job["variant"], args=args, label="replay:" + job["label"], env=job.get("env", {}), watchdog=900)
-    return dict(jobs=[j], rule="replay of a recorded violation", assumptions=[])
+    jobs = []
+    for job in rp.get("jobs") or [rp["job"]]:
+        args = list(job["args"])
+        if "case" in rp:
+            args += ["-only", str(rp["case"])]
+        # labels keep their form so that cross-process / cross-build comparisons work on replays too
+        jobs.append(dict(cmd=job["cmd"], variant=job["variant"], args=args, label=job["label"], env=job.get("env", {}), watchdog=900))
+    return dict(jobs=jobs, rule="replay of a recorded violation", assumptions=[])
 
 
 def new_merge():
@@ -137,6 +139,7 @@ def merge(m, res, job):
     m["filters"] = max(m["filters"], res.get("distinct_filters", 0))
     if res.get("digests"):
         m["digests"].setdefault(job["label"], {}).update(res["digests"])
+        m.setdefault("jobs_by_label", {})[job["label"]] = {k: job[k] for k in ("cmd", "variant", "args", "label")} | {"env": job.get("env", {})}
     for k, v in (res.get("extra") or {}).items():
         if isinstance(v, (int, float)):
             m["extra"][k] = m["extra"].get(k, 0) + v
